@@ -4,7 +4,8 @@ VARIABLE l
 Trace == ndJsonDeserialize(IOEnv.VERIF_TRACE)
 FailSet(t) ==
    (IF C12_OK(t.cfg, t.input, t.obs) THEN {} ELSE {"C12"}) \cup
-   (IF C09_OK(t.cfg, t.input, t.obs) THEN {} ELSE {"C09"})
+   (IF C09_OK(t.cfg, t.input, t.obs) THEN {} ELSE {"C09"}) \cup
+   (IF C08_OK(t.cfg, t.input, t.obs) THEN {} ELSE {"C08"})
 Verdict(t) == [case |-> t.case, fails |-> FailSet(t), drift |-> ~Conforms(ModelOut(t.cfg, t.input), t.obs)]
 Init == l = 1
 Next == /\ l <= Len(Trace)
